@@ -28,6 +28,9 @@ type secureCase struct {
 	Checksum []byte `json:"checksum"` // configured checksum
 	Missing  bool   `json:"missing"`  // command path does not exist
 	Variant  string `json:"variant"`
+	PathKind string `json:"path_kind"` // "" plain | "symlink-dotdot": the command path goes through a symlinked directory and ".."
+	Decoy    []byte `json:"decoy"`     // symlink-dotdot: content of the file a lexically cleaned path would name
+	Slot     int    `json:"slot"`      // >0: cases with the same slot reuse one path, with size and mtime kept equal (histories)
 }
 
 func newHash(name string) hash.Hash {
@@ -87,6 +90,32 @@ func genSecure(o opts) []secureCase {
 	cs = append(cs, secureCase{Content: base, Hash: "nil", Checksum: d, Variant: "nohash"})
 	cs = append(cs, secureCase{Content: base, Hash: "nil", Checksum: nil, Variant: "nohash-nochecksum"})
 	cs = append(cs, secureCase{Content: base, Hash: "sha256", Checksum: d, Missing: true, Variant: "missing-file"})
+	// histories on one path: same size, same mtime, different content / checksum
+	for slot := 1; slot <= 3; slot++ {
+		c0 := []byte(fmt.Sprintf("# history %d variant A %08d\n", slot, r.Intn(1e8)))
+		c1 := []byte(fmt.Sprintf("# history %d variant B %08d\n", slot, r.Intn(1e8)))
+		d0, d1 := digest("sha256", nil, scriptBody(c0)), digest("sha256", nil, scriptBody(c1))
+		steps := []struct {
+			c, d []byte
+			h    string
+			v    string
+		}{{c0, d0, "sha256", "hist-ok"}, {c1, d0, "sha256", "hist-swapped-content"}, {c1, d1, "sha256", "hist-ok2"},
+			{c0, d1, "sha256", "hist-swapped-back"}, {c0, d0, "nil", "hist-nohash"}, {c0, d0, "sha256", "hist-ok3"}, {c1, d0, "sha256", "hist-swapped-again"}}
+		for _, st := range steps {
+			cs = append(cs, secureCase{Content: st.c, Hash: st.h, Checksum: st.d, Variant: st.v, Slot: slot})
+		}
+	}
+	// the command path is not lexically clean: symlinked directory followed by ".."
+	for k := 0; k < 6; k++ {
+		real := []byte(fmt.Sprintf("# real %d\n", r.Intn(1e8)))
+		decoy := []byte(fmt.Sprintf("# decoy %d\n", r.Intn(1e8)))
+		dr, dd := digest("sha256", nil, scriptBody(real)), digest("sha256", nil, scriptBody(decoy))
+		ck, v := dr, "symlink-real-checksum"
+		if k%2 == 1 {
+			ck, v = dd, "symlink-decoy-checksum"
+		}
+		cs = append(cs, secureCase{Content: real, Decoy: decoy, Hash: "sha256", Checksum: ck, Variant: v, PathKind: "symlink-dotdot"})
+	}
 	// random
 	for len(cs) < n {
 		var c secureCase
@@ -156,12 +185,29 @@ func runSecure(o opts) error {
 	for i, c := range cs {
 		id := fmt.Sprintf("s%d", i)
 		path := filepath.Join(tmp, id+".sh")
+		if c.Slot > 0 {
+			path = filepath.Join(tmp, fmt.Sprintf("slot%d.sh", c.Slot))
+		}
 		marker := filepath.Join(tmp, id+".marker")
 		body := scriptBody(c.Content)
+		cmdPath := path
+		if c.PathKind == "symlink-dotdot" {
+			// A/plugin (decoy), A/link -> B/sub, B/plugin (real): the kernel resolves A/link/../plugin to B/plugin
+			a, b := filepath.Join(tmp, id+"-A"), filepath.Join(tmp, id+"-B")
+			os.MkdirAll(a, 0o755)
+			os.MkdirAll(filepath.Join(b, "sub"), 0o755)
+			os.WriteFile(filepath.Join(a, "plugin"), scriptBody(c.Decoy), 0o755)
+			os.Symlink(filepath.Join(b, "sub"), filepath.Join(a, "link"))
+			path = filepath.Join(b, "plugin")
+			cmdPath = a + "/link/../plugin"
+		}
 		if err := os.WriteFile(path, body, 0o755); err != nil {
 			return err
 		}
-		cmdPath := path
+		if c.Slot > 0 {
+			fixed := time.Unix(1600000000, 0)
+			os.Chtimes(path, fixed, fixed)
+		}
 		if c.Missing {
 			cmdPath = filepath.Join(tmp, "does-not-exist")
 		}
@@ -175,6 +221,7 @@ func runSecure(o opts) error {
 			sc.Hash = hh
 		}
 		cmd := exec.Command(cmdPath)
+		cmd.Path = cmdPath // exec.Command cleans nothing, but be explicit: the path is used as given
 		cmd.Env = []string{"VERIF_MARKER=" + marker}
 		cl := plugin.NewClient(&plugin.ClientConfig{
 			HandshakeConfig: plugin.HandshakeConfig{ProtocolVersion: 1, MagicCookieKey: "K", MagicCookieValue: "V"},
@@ -221,7 +268,9 @@ func runSecure(o opts) error {
 		in := sx.L{sx.B(c.Checksum), sx.Bool(hh != nil), sx.Bool(!c.Missing), sx.B(dg)}
 		obs := sx.L{sx.I(class), sx.Bool(launched)}
 		sink.Put(13, id, in, obs, c)
-		os.Remove(path)
+		if c.Slot == 0 {
+			os.Remove(path)
+		}
 		os.Remove(marker)
 	}
 	return nil
